@@ -12,14 +12,14 @@ checks = {
  "C02": (A+" + "+B, "model_checking", "explicit-state BFS over on-disk images (every transition is close+re-open), re-open under a parameter list on every state; re-open letters inside bounded-exhaustive sequences",
    "Every transition of the image graph is 'drop all handles, re-open'; on every reachable state the map is re-opened under 3 other parameter sets and compared (get, absent keys, len, full iteration). Sequences with Reopen(P), drop-map, drop-db, live-iterator and clone letters cover interleavings with live handle graphs.",
    "consecutive transitions run in different worker processes; a freshly spawned process per state only on the first closure"),
- "C03": (C, "fault_enumeration", "exhaustive crash-point enumeration: every durability call of every call sequence up to depth 4/5, directory snapshot + SIGKILL + system-call log",
-   "Every flush/sync_data/sync_all (map, clone, database; five maps of all key types open) that returns Ok in every sequence over the letters is a crash point: the directory is copied with all handles alive and must decode and open to the model; for sync_* the shim's system-call log must show an OS sync after each file's last write; the writer is SIGKILLed at the crash point (all sequences of depth 3) and another process opens what is left.",
+ "C03": (C, "fault_enumeration", "exhaustive crash-point enumeration: every durability call of every call sequence up to depth 4/5 over 21 letters (and depth 6/7 over 7 letters), directory snapshot + SIGKILL + system-call log",
+   "Every flush/sync_data/sync_all (map, clone, database; six maps of all key types open, two of them with names that differ only after a dot, one with two buckets) that returns Ok in every sequence over the letters is a crash point: the directory is copied with all handles alive and must decode and open to the model; for sync_* the shim's system-call log must show an OS sync after each file's last write; the writer is SIGKILLed at the crash point (all sequences of depth 3) and another process opens what is left.",
    "process death only (no power-loss reordering); the shim sees libc write/pwrite/ftruncate/fsync/fdatasync"),
- "C04": (D+" + "+A, "model_checking", "exhaustive enumeration of table occupancy patterns per table size + iterator oracle on every state of image-graph closures",
-   "The scan depends only on (table size, occupied buckets, chain lengths): all 2^n patterns for n<=16 in Gray order on a live map, all <=2-bucket and dense-minus-one patterns up to 256 (1024 thorough), singletons / boundary pairs / dense-minus-one up to 65536, every power-of-two size 1..65536 requested three ways; all 7 iterator flavours with exact size_hint and post-exhaustion behaviour; plus arbitrary histories via closures under 5 table sizes.",
+ "C04": (D+" + "+A+" + "+B, "model_checking", "exhaustive enumeration of table occupancy patterns per table size + iterator oracle on every state of image-graph closures + all live-handle sequences with traversal letters",
+   "The scan depends only on (table size, occupied buckets, chain lengths): all 2^n patterns for n<=16 in Gray order on a live map, all <=2-bucket and dense-minus-one patterns up to 256 (1024 thorough), singletons / boundary pairs / dense-minus-one up to 65536, every power-of-two size 1..65536 requested three ways; 10 traversal flavours (the 7 API flavours and 3 with other read-only calls between the steps) with exact size_hint and post-exhaustion behaviour; arbitrary histories via closures under 5 table sizes, seeded images, long / non-UTF-8 / extreme integer keys and the key ladder; all sequences of depth 6 (7) over put/delete/traverse on one live handle and its clone.",
    "for n>16 not all patterns; the 16 Mi default table only in the thorough tier at boundary positions"),
- "C05": (A, "model_checking", "explicit-state BFS over on-disk images, invariant = independent decoder on every state",
-   "The independent decoder (own vu64, own placement hash, written from the layout documentation) is evaluated on every reachable image of the closures (empty-map starts for 5 key types, seeded images around the 16 KiB offset boundary) and must accept it and recover exactly the model.",
+ "C05": (A+" + "+C, "model_checking", "explicit-state BFS over on-disk images, invariant = independent decoder on every state; the same decoder on a copy of the directory at every sync point of all call sequences of a depth",
+   "The independent decoder (own vu64, own placement hash, written from the layout documentation) is evaluated on every reachable image of the closures (empty-map starts for 5 key types, seeded images around the 16 KiB offset boundary) and must accept it and recover exactly the model; the class ladder visits every slot class of both files; one map of every key type in one database is driven through every sequence of depth 4 (5) over put/delete/flush/db.sync_all/db.sync_data and decoded at every Ok durability call.",
    "the decoder is the trusted oracle; it is bound to the released format by the golden images (C12) and an independently written Python prototype"),
  "C06": (A, "model_checking", "explicit-state BFS over on-disk images to closure; tiling/partition invariant per state, allocation rule per transition",
    "Closure reached = the reachable image set, hence file size, is finite over all histories of the alphabet (small classes, shared large list with first-fit, large key slots). On every state slots tile the files and are live-once xor free-once; on every transition a file grows only if no suitable free slot existed; statistics calls terminate under a watchdog.",
@@ -28,37 +28,37 @@ checks = {
    "Every single-coordinate deviation of (table parameter, val/key/htx buffer parameter) and every table x buffer pair (thorough: the full 24x8^3 product) runs all histories of the stated depth plus fixed eviction-heavy histories; each must agree with the one model, decode, and show the same contents when re-opened under three other configurations.",
    "PerMille(<1000) configurations fall into a known finding of the dependency rabuf and are not multiplied beyond single coordinates in the quick tier; under the alternative cargo feature sets (thorough) only model and re-open oracles apply"),
  "C08": (A, "model_checking", "explicit-state BFS over on-disk images on all-colliding key sets, from empty and from seeded images at offset-width boundaries",
-   "Keys all collide in one bucket and have record lengths exactly on slot-class edges for head/middle/tail positions; seeded images built by the real code put the end of .val/.key at 16 KiB (128 KiB, 2 MiB thorough) minus {0,16,48} with freed slots below; BFS to closure or cap. The evidence counts transitions that really moved a key record per chain position and per cause (put/delete, target/other).",
+   "Keys all collide in one bucket and have record lengths exactly on slot-class edges for head/middle/tail positions; seeded images built by the real code put the end of .val/.key at 16 KiB, 128 KiB, 16 MiB (2 MiB thorough) minus {0,16,48} with freed slots below; BFS to closure or cap; overwrites between the largest length of a slot class, one byte more and the next class (class ladder). The evidence counts transitions that really moved a key record per chain position and per cause (put/delete, target/other).",
    "3 keys do not always close within the quick cap (depth >= 7 fully covered); the 256 MiB width step is not materialised"),
- "C09": (D, "exploration", "complete enumeration of the length domain through the layout-probe hook + end-to-end sweep",
-   "Every value length 0..2^24 and every key length 0..2^16 x 2704 offset pairs is sized by the crate's own code and compared with the independently computed exact record length (1.9e8 evaluations, exhaustive); the end-to-end sweep stores every length 0..1100 (4200 thorough) and around 4 KiB/128 KiB/1 MiB (16 MiB thorough) between two sentinels, overwrites +-1, reads back, decodes.",
+ "C09": (D+" + "+A, "exploration", "complete enumeration of the length domain through the layout-probe hook + end-to-end sweep + two explicit-state closures at the 16 KiB offset boundary",
+   "Every value length 0..2^24 and every key length 0..2^16 (plus bands around 2^17, 2^20, 2^21, 2^24) x 2704 offset pairs is sized by the crate's own code and compared with the independently computed exact record length (1.9e8 evaluations, exhaustive); the end-to-end sweep stores every length 0..1100 (4200 thorough) and around 4 KiB/128 KiB/1 MiB (16 MiB thorough) between two sentinels, overwrites +-1, reads back, decodes; keys around 128 KiB (2 MiB thorough); for lengths >= 1000 a free-and-reuse round on the shared first-fit list; closures from seeded images just below 16 KiB over exactly fitting key records.",
    "the hook (feature abyssiniandb_verif) calls the same sizing functions as the write path; (b) binds it to the bytes really written"),
- "C10": (D, "exploration", "complete enumeration of a structured finite integer domain (525744 values) + typed-map histories",
-   "Round trips by value/reference, pairwise-distinct encodings, hash agreement with the documented function, cmp_u8 on a 94x94 boundary grid, typed maps over the boundary integers with iteration back-conversion, byte/string key sets with prefixes, NULs and non-UTF-8.",
+ "C10": (D, "exploration", "complete enumeration of a structured finite integer domain (525744 values; thorough: 4 ranges of 2^30 integers per type) + typed-map histories + families of conversions",
+   "Round trips by value/reference, pairwise-distinct encodings, hash agreement with the documented function, cmp_u8 on a 94x94 boundary grid, typed maps over the boundary integers with iteration back-conversion, byte/string key sets with prefixes, NULs and non-UTF-8 in three insertion orders, raw keys of other lengths on integer maps, every From conversion of every key type from the same bytes.",
    "2^64 cannot be enumerated; the domain is stated in the evidence"),
  "C11": (B, "model_checking", "bounded-exhaustive call sequences over several named maps and five handle kinds; projection differential",
-   "All 73^3 sequences over put/delete on 6 maps of all five key types (two names differing only after a dot) through first handle / clone / repeated lookup / lookup via db.clone() / *_with_params, plus db.sync_all; after every call every live handle of every map is compared with its map's model; files of map j must be a function of j's own update subsequence (digest comparison across all sequences).",
-   "depth 3; two keys per map"),
+   "All 85^3 sequences over put/delete on 7 maps of all five key types (names differing only after a dot or in letter case) through first handle / clone / repeated lookup / lookup via db.clone() / *_with_params, plus db.sync_all; 37^3 sequences over six pairs of look-alike names; 6^6 (6^8) sequences over two maps with values of two neighbouring slot classes; after every call every live handle of every map is compared with its map's model; files of map j must be a function of j's own update subsequence (digest comparison across all sequences).",
+   "depth 3 (6 resp. 8 for the two-map configuration); two keys per map"),
  "C12": (A, "model_checking", "golden images of the pinned release as start states of the image-graph search; decoder bound to released bytes",
-   "15 images written by commit 4b82afd (5 key types x 3 histories) must be decoded by the independent decoder to their recorded contents, open under the current build with identical contents, stay byte-identical under read-only sessions, and keep every C01/C05/C06/C17 oracle on all successors of histories over existing and new keys.",
+   "22 images written by commit 4b82afd (5 key types x 4 histories, and a history with a live key and a freed slot of every key slot class for the byte-string types) must be decoded by the independent decoder to their recorded contents, open under the current build with identical contents, stay byte-identical under read-only sessions, and keep every C01/C05/C06/C17 oracle on all successors of histories over existing and new keys (under four parameter sets); every entry of every image is also updated once from the original image and the result decoded.",
    "images were generated once from a scratch checkout of the pinned commit; releases older than that are not covered"),
- "C13": (D, "exploration", "complete enumeration of type pairs x foreign file and of all single-byte signature mutations (61280 open attempts)",
+ "C13": (D, "exploration", "complete enumeration of type pairs x foreign file and of all single-byte signature mutations, x 4 table sizes x 3 fill states (735360 open attempts)",
    "Every ordered pair of key types (whole directory and single foreign file) and every one-byte change of the 16 signature bytes of each file of each type must be refused before any lookup answers Ok, leaving files byte-identical.",
    "the u64/vu64 signature collision is a recorded known finding"),
- "C14": (D, "exploration", "complete enumeration of batches up to length 4/5 over a 4-key set x 16 presence states x 5 key types",
-   "bulk_get(_string) with repetition, bulk_delete(_string)/bulk_put(_string) without, put_from_iter with repetition, put_string/get_string/delete_string: every returned vector position-wise and every final state against the element-wise model, with invalid UTF-8 values.",
-   "batch length <= 4 (5 thorough)"),
+ "C14": (D, "exploration", "complete enumeration of batches up to length 4/8 over a 4-key set x 16 presence states x 5 key types",
+   "bulk_get(_string) with repetition, bulk_delete(_string)/bulk_put(_string) without, put_from_iter with repetition, put_string/get_string/delete_string: every returned vector position-wise and every final state against the element-wise model, with invalid UTF-8 values; long batches, large-value batches, keys of every pair of adjacent key slot classes, reuse of large slots, keys made by the owned conversions.",
+   "batch length <= 4 (8 thorough) in the complete enumeration"),
  "C15": (A, "model_checking", "self-loop check on every state of image-graph closures: read-only session then byte comparison",
-   "On every reachable state each of 24 read-only calls alone (all ordered pairs in thorough) in its own open/close bracket must leave the three files byte-identical and the contents unchanged; combined sessions on further closures, table sizes 8..1024 and all key types.",
+   "On every reachable state each of 26 read-only calls alone (all ordered pairs in thorough) in its own open/close bracket must leave the three files byte-identical and the contents unchanged; combined sessions on further closures, table sizes 1..1024 and 262144, values of 140000 bytes, a key file whose last record straddles a buffer-chunk boundary, and all key types.",
    "states are those of the small closures"),
  "C16": (C, "fault_enumeration", "deviation-bounded fault enumeration: every write of every durability call refused (1 deviation; 2 deviations for short histories / thorough)",
-   "For all update histories of 1..3 letters over two maps x 5 durability calls: count the W writes of the call, then refuse the k-th write for every k and three refusal modes, and apply the real RLIMIT_FSIZE at every distinct threshold; the call must return Err, reads while refusing must be right or Err, after lifting the view equals the model before any flush, the next flush succeeds and the snapshot decodes and opens to the model.",
+   "For all histories of 1..3 (4 thorough) letters over two maps (updates and a successful flush) x 5 durability calls, in three file geometries: the unfaulted call must leave a durable copy; count the W writes of the call, then refuse the k-th write for every k and three refusal modes, and apply the real RLIMIT_FSIZE at every distinct threshold; the call must return Err, reads while refusing must be right or Err, after lifting the view equals the model before any flush, the next flush succeeds and the snapshot decodes and opens to the model.",
    "only write refusals (three injector modes + the kernel's RLIMIT_FSIZE); failing fsync/ftruncate is not explored"),
  "C17": (A, "model_checking", "explicit-state BFS over on-disk images; statistics calls compared with the independently decoded structure on every state",
-   "Every statistics figure is recomputed from the decoder's view of the files on every state of closures that include large-list alphabets, empty keys/values and multi-bucket tables; termination under a watchdog.",
+   "Every statistics figure is recomputed from the decoder's view of the files on every state of closures that include large-list alphabets, long keys, empty keys/values, multi-bucket tables and a start image with more than 16 different slot sizes per file; termination under a watchdog.",
    "keys_count_stats is not compared (the property is silent about it)"),
  "C18": (A+" + "+B, "model_checking", "triple execution of every (state, letter): second directory with read-only splices, third in another process; whole histories twice in different processes",
-   "Over the closures every history of the alphabet is covered: each transition is re-executed with read-only calls spliced in, in another directory and in another worker process, and must give byte-identical files; engine B repeats whole no-re-open histories in two processes.",
+   "Over the closures every history of the alphabet is covered: each transition is re-executed with read-only calls (lookups, iteration, all statistics calls) spliced in, in another directory and in another worker process, and must give byte-identical files; engine B repeats whole no-re-open histories in two processes and enumerates every set of positions x six kinds of read-only call spliced into every history of depth 3 (4).",
    "same machine, same binary; platform differences are out of reach"),
 }
 order = sorted(checks)
@@ -75,9 +75,9 @@ m = {
    "add_only": True,
  },
  "engines": [
-   {"name": A, "path": "harness/src/engine_a.rs", "serves_properties": ["C01","C02","C04","C05","C06","C08","C12","C15","C17","C18"], "kind_free_text": "explicit-state BFS over exact on-disk images of the real code, worker processes, exact dedupe, closure or stated cap"},
-   {"name": B, "path": "harness/src/engine_b.rs", "serves_properties": ["C01","C02","C07","C11","C18"], "kind_free_text": "all call sequences up to a depth on live handles, per-call comparison with a BTreeMap model"},
-   {"name": C, "path": "harness/src/engine_c.rs + shim/abyv_shim.c", "serves_properties": ["C03","C16","C18"], "kind_free_text": "crash points and refused writes at the system-call boundary"},
+   {"name": A, "path": "harness/src/engine_a.rs", "serves_properties": ["C01","C02","C04","C05","C06","C08","C09","C12","C15","C17","C18"], "kind_free_text": "explicit-state BFS over exact on-disk images of the real code, worker processes, exact dedupe, closure or stated cap"},
+   {"name": B, "path": "harness/src/engine_b.rs", "serves_properties": ["C01","C02","C04","C07","C11","C18"], "kind_free_text": "all call sequences up to a depth on live handles, per-call comparison with a BTreeMap model"},
+   {"name": C, "path": "harness/src/engine_c.rs + shim/abyv_shim.c", "serves_properties": ["C03","C05","C16","C18"], "kind_free_text": "crash points and refused writes at the system-call boundary"},
    {"name": D, "path": "harness/src/props_d.rs, props_f.rs, harness-probe/", "serves_properties": ["C04","C09","C10","C13","C14"], "kind_free_text": "complete enumeration of finite structured input domains"},
  ],
  "checks": [],
